@@ -546,7 +546,7 @@ def r8_coverage(res, facts):
     """findTemplate looks a node up in the list of its kind (locateMatchPatternDataList).  addTemplate must file an entry in every list whose
     nodes the alternative can match; a missing list loses the rule for that node kind (an extra list only costs a failed match test)."""
     r = res.rule('C10-R8', 'Stylesheet::addTemplate files each entry in every lookup list whose node kind the alternative can match (decided by interpreting its dispatch on the pseudo name and '
-                 'target type getTargetData produces): text() -> text, comment() -> comment, processing-instruction() -> pi, / -> root, node() -> element + text + comment + pi, '
+                 'target type getTargetData produces): text() -> text, comment() -> comment, processing-instruction() -> pi, / -> root, node() and @node() -> element + attribute + text + comment + pi, '
                  '* -> element, @* -> attribute, id()/key() -> every list, a name -> the per-name table of its kind', floor=9)
     a = facts.asts('Stylesheet::addTemplate')[0]
     loop = None
@@ -563,7 +563,7 @@ def r8_coverage(res, facts):
     tt = {n.split('::')[-1]: v for n, v in facts.enumconst.items() if '::XPath::TargetData::e' in n}
     CASES = [
         ('TEXT', 'eOther', {'text'}), ('COMMENT', 'eOther', {'comment'}), ('PI', 'eOther', {'pi'}), ('ROOT', 'eOther', {'root'}),
-        ('NODE', 'eOther', {'elementAny', 'text', 'comment', 'pi'}),
+        ('NODE', 'eOther', {'elementAny', 'attributeAny', 'text', 'comment', 'pi'}),      # '@node()' is filed under the same pseudo name as 'node()'
         ('ANY', 'eElement', {'elementAny'}), ('ANY', 'eAttribute', {'attributeAny'}),
         ('ANY', 'eAny', {'elementAny', 'attributeAny', 'text', 'comment', 'pi', 'root'}),
         ('name', 'eElement', {'elementTable[name]'}), ('name', 'eAttribute', {'attributeTable[name]'}),
